@@ -3,7 +3,7 @@
  (i)  spec -> code: an emitted scenario whose expected number / discrete field is corrupted must be reported by the replay;
  (ii) code -> spec: a recorded event with one corrupted field must be rejected by TLC, the untouched event accepted;
  (iii) with --tier thorough: every seeded change under seeded/<id>/ must turn the named property's quick check red
-       (tools/try_seed.sh; /repo is restored afterwards).
+       (tools/try_seed_wt.sh: the patch is applied to a scratch worktree, /repo is never touched).
 """
 from __future__ import annotations
 import os, json, copy, subprocess, sys
@@ -76,7 +76,7 @@ def selftest(tier: str, seed: int) -> int:
     if tier == 'thorough':
         for sid in sorted(os.listdir(os.path.join(VERIF, 'seeded'))):
             meta = json.load(open(os.path.join(VERIF, 'seeded', sid, 'meta.json')))
-            out = subprocess.run([os.path.join(VERIF, 'tools', 'try_seed.sh'), f'seeded/{sid}', meta['property']], capture_output=True, text=True).stdout
+            out = subprocess.run([os.path.join(VERIF, 'tools', 'try_seed_wt.sh'), f'seeded/{sid}', meta['property']], capture_output=True, text=True).stdout
             report(f'seeded change {sid} turns ./check {meta["property"]} red', 'VIOLATION property=' in out or 'violating scenarios' in out)
     print('selftest:', 'all bindings detect' if ok else 'FAILED')
     return 0 if ok else 2
